@@ -153,6 +153,9 @@ ConvOK(r) ==
         /\ r.wrote = (IF Len(want) > 0 THEN 1 ELSE 0)                  \* the copy is writable even when the source is not
         /\ r.after = [k \in 1..Len(want) |-> IF k = 1 THEN 60 ELSE want[k]]
 
+\* an index beyond the range of the C index type is out of range: raises, nothing changes
+HugeIdxOK(r) == r.exc = 1 /\ r.unchanged = 1
+
 \* FixedVArray: a Python list of lists.  Row i of the array built from sizes s is  [V2(i, j) : j < s[i]].
 VRow(i, m) == [j \in 1..m |-> V2(i, j - 1)]
 VFull(sizes) == [i \in 1..Len(sizes) |-> VRow(i - 1, sizes[i])]
